@@ -70,7 +70,7 @@ fn mt_result_typed<T: BigT>(g: &GraphSpec) {
             }
             // Tags: the vector source marks the first sample of every
             // repetition; stages that map sample i to sample i carry them
-            // along. Every sink must hold exactly those, once.
+            // along. Every sink must have received exactly those, once each.
             let one_to_one = |st: &Stage| matches!(st, Stage::AddConst(_) | Stage::XorConst(_) | Stage::MulConst(_) | Stage::MoveWait | Stage::SyncId);
             let tag_shape = match &g.shape {
                 Shape::Chain(st) => st.iter().all(one_to_one),
@@ -78,17 +78,19 @@ fn mt_result_typed<T: BigT>(g: &GraphSpec) {
                 _ => false,
             };
             if tag_shape && g.file_repeat == 0 && g.src_len > 0 {
+                // (VectorSink records tags with the position they had in the
+                // window it read them from, so positions cannot be compared
+                // here: which tags arrive, and how often, can.)
                 let reps = g.vec_repeat.max(1) as usize;
-                let mut want: Vec<(usize, String)> = vec![];
+                let mut want: Vec<String> = vec![];
                 for k in 0..reps {
-                    want.push((k * g.src_len, "VectorSource::start=Bool(true)".into()));
-                    want.push((k * g.src_len, format!("VectorSource::repeat=U64({k})")));
+                    want.push("VectorSource::start=Bool(true)".into());
+                    want.push(format!("VectorSource::repeat=U64({k})"));
                 }
-                want.push((0, "VectorSource::first=Bool(true)".into()));
+                want.push("VectorSource::first=Bool(true)".into());
                 want.sort();
                 for (j, h) in sinks.iter().enumerate() {
-                    let mut got: Vec<(usize, String)> =
-                        h.data().tags().iter().map(|t| (t.pos() as usize, format!("{}={:?}", t.key(), t.val()))).collect();
+                    let mut got: Vec<String> = h.data().tags().iter().map(|t| format!("{}={:?}", t.key(), t.val())).collect();
                     got.sort();
                     if got != want {
                         violate("tags-differ", format!("sink {j} holds tags {got:?}, the source's markers are {want:?}"));
